@@ -10,7 +10,6 @@ recorded effects (fn cases); it does not use the model.
 """
 import contextlib
 import io
-import itertools
 import json
 import types
 
@@ -108,7 +107,8 @@ def gen_cases(rng, tier):
         if tier == "quick":
             c["choices"] = [[rng.randrange(6) for _ in range(6)] for _ in range(3)]
         else:
-            c["choices"] = "all4"  # all choice sequences over {0..3} per choice call (exhaustive when <= 4 heads tie)
+            c["light"] = True
+            c["choices"] = "tree"  # systematic exploration of the tie-break tree (exhaustive when <= 4 heads tie)
             c["extra_choices"] = [[rng.randrange(6) for _ in range(6)] for _ in range(2)]
         cases.append(c)
     for _ in range(n_fn):
@@ -176,6 +176,7 @@ class Recorder:
         self.cur = None
         self.depth = 0
         self.event_of = event_of
+        self.all_counts = []
         self.saved = {}
 
     def __enter__(self):
@@ -243,6 +244,7 @@ class Recorder:
         def choice(seq):
             c = rec.choices[rec.ci] if rec.ci < len(rec.choices) else 0
             rec.ci += 1
+            rec.all_counts.append(len(seq))
             if rec.cur is not None:
                 rec.cur["choice"].append([len(seq), c])
             return seq[c % len(seq)]
@@ -264,13 +266,7 @@ def _clean_event(e):
     return {k: v for k, v in e.items() if k not in drop}
 
 
-def choice_seqs(case):
-    ch = case.get("choices")
-    if ch == "all4":
-        nloops = len({f["loop"] for f in case["flows"]})
-        seqs = [list(t) + [0] * 4 for t in itertools.product(range(4), repeat=min(nloops, 3))]
-        return seqs + case.get("extra_choices", [])
-    return ch or [[0] * 6]
+MAX_TREE_RUNS = 48
 
 
 def run_prog(case):
@@ -291,7 +287,18 @@ def run_prog(case):
     if case.get("followup"):
         events += [{"type": "F"}, {"type": "G"}]
     seen_sig = set()
-    for choices in choice_seqs(case):
+    # "tree": systematic exploration of the tie-break tree — every run reports the candidate count of each random.choice
+    # call; for every call beyond the forced prefix with n > 1 candidates the alternatives 1..min(n,4)-1 are scheduled.
+    # Each leaf is visited once; exhaustive whenever no tie has more than 4 candidates and the tree has <= MAX_TREE_RUNS leaves.
+    tree = case.get("choices") == "tree"
+    todo = [[]] if tree else list(case.get("choices") or [[0] * 6])
+    if tree:
+        todo += [list(c) for c in case.get("extra_choices", [])]
+    nruns = 0
+    obs["tree_complete"] = tree
+    while todo:
+        choices = todo.pop(0)
+        nruns += 1
         run = {"choices": choices, "steps": [], "calls": []}
         try:
             with contextlib.redirect_stdout(io.StringIO()):
@@ -338,6 +345,17 @@ def run_prog(case):
                 if "exc" in step:
                     break
             run["calls"] = rec.calls
+            counts = rec.all_counts
+        if tree and nruns <= MAX_TREE_RUNS and (nruns == 1 or len(choices) and choices not in case.get("extra_choices", [])):
+            used = [(choices[k] if k < len(choices) else 0) for k in range(len(counts))]
+            for k in range(len(choices), len(counts)):
+                for alt in range(1, min(counts[k], 4)):
+                    if len(todo) + nruns < MAX_TREE_RUNS:
+                        todo.append(used[:k] + [alt])
+                    else:
+                        obs["tree_complete"] = False
+                if counts[k] > 4:
+                    obs["tree_complete"] = False
         # identical runs (same picks) are kept once
         sig = json.dumps([[c["choice"], c.get("advancing")] for c in run["calls"]] + [[s.get("exc")] for s in run["steps"]])
         if sig in seen_sig:
@@ -423,9 +441,18 @@ def run_fn(case):
 
 
 def run_impl(case):
-    if case["kind"] == "prog":
-        return run_prog(case)
-    return run_fn(case)
+    """Everything that is per case (oracle, model requests with the expected answers, tags) is computed here, in the
+    worker process; the parent only ships the requests to the Lean driver and compares integers."""
+    obs = run_prog(case) if case["kind"] == "prog" else run_fn(case)
+    obs["_oracle"] = _oracle(case, obs)
+    obs["_model"] = [call_expect(c) for c in all_calls(case, obs) if "exc" not in c]
+    obs["_sig"] = _signature(case, obs)
+    obs["_nt"] = _nontrivial(case, obs)
+    obs["_tags"] = _tags(case, obs)
+    if case.get("light") and obs["_oracle"] is None and "runs" in obs:
+        # thorough tier: keep the per-run detail only for failing cases (a replay re-executes the case anyway)
+        obs["runs"] = [{"choices": r["choices"], "ncalls": len(r["calls"])} for r in obs["runs"]]
+    return obs
 
 
 # ----------------------------------------------------------------------------- model requests / compare
@@ -440,8 +467,9 @@ def _intern(table, key):
     return table.setdefault(key, len(table))
 
 
-def call_request(call):
-    floats = sorted({1.0} | {s for h in call["heads"] for s in h["scores"]})
+def call_expect(call):
+    """(driver request, expected answer in the request's integer names) for one recorded call."""
+    floats = sorted({1.0} | {x for h in call["heads"] for x in h["scores"]})
     rank = {x: i for i, x in enumerate(floats)}
     uid, ev = {}, {}
     for u, _ in call["tbl"]:
@@ -450,11 +478,25 @@ def call_request(call):
     for h in call["heads"]:
         heads.append({
             "uid": _intern(uid, "h:" + str(h["uid"])), "flow": _intern(uid, "f:" + str(h["flow"])), "loop": _intern(uid, "l:" + str(h["loop"])),
-            "scores": [rank[s] for s in h["scores"]], "ev": _intern(ev, (h["ev"]["name"], h["ev"]["args"])),
+            "scores": [rank[x] for x in h["scores"]], "ev": _intern(ev, (h["ev"]["name"], h["ev"]["args"])),
             "act": (_intern(uid, h["ev"]["act"]) if h["ev"]["act"] else None), "nrefs": h["nrefs"], "catch": h["catch"], "start": bool(h.get("start"))})
     req = {"m": "C05.resolve", "one": rank[1.0], "heads": heads, "choices": [c for _, c in call["choice"]] or [],
            "tbl": [[_intern(uid, u), n] for u, n in call["tbl"]]}
-    return req, uid
+    hu = [h["uid"] for h in call["heads"]]
+    exp = {"dup": len(set(hu)) != len(hu),
+           "adv": [uid["h:" + str(x)] for x in call["advancing"]],
+           "gen": [uid["h:" + str(x)] for x in call["gen"]],
+           "ab": [uid.get("f:" + str(a["flow"]), -1) for a in call["aborts"]],
+           "moved": sorted(uid["h:" + str(h["uid"])] for h, p in zip(call["heads"], call["pos_after"]) if p != h["pos"]),
+           "ties": [n for n, _ in call["choice"]], "tbl": None}
+    # state.actions: only when no aborted flow touches the actions of the competing heads (abort decrements are not modelled)
+    touched = {a for ab_ in call["aborts"] for a in ab_["acts"]}
+    head_acts = {h["ev"]["act"] for h in call["heads"] if h["ev"]["act"]}
+    if not (touched & head_acts):
+        exp["tbl"] = sorted([uid[u], n] for u, n in call["tbl_after"] if u in uid)
+        if any(u not in uid for u, _ in call["tbl_after"]):
+            exp["tbl"].append([-1, -1])  # an action appeared during the call: never expected
+    return [req, exp]
 
 
 def shared_action_region(call):
@@ -471,54 +513,33 @@ def shared_action_region(call):
 
 
 def model_requests(case, obs):
-    reqs = []
-    for call in all_calls(case, obs):
-        if "exc" in call:
-            continue
-        # the model is told the choices the implementation actually consumed; a call that consumed none gets []
-        reqs.append(call_request(call)[0])
-    return reqs
+    return [r for r, _ in obs["_model"]]
 
 
-def compare_call(call, m):
-    req, uid = call_request(call)
-    inv = {v: k for k, v in uid.items()}
-    hu = [u for u in (h["uid"] for h in call["heads"])]
-    if len(set(hu)) != len(hu):
+def compare_one(exp, m):
+    if exp["dup"]:
         return "assumption violated: duplicate head uids in the input of _resolve_action_conflicts"
-    adv = [inv[x][2:] for x in m["advancing"]]
-    if adv != [str(x) for x in call["advancing"]]:
-        return f"advancing heads differ: impl {call['advancing']} model {adv}"
-    gen = [inv[x[0]][2:] for x in m["generated"]]
-    if gen != [str(x) for x in call["gen"]]:
-        return f"generated events differ: impl heads {call['gen']} model {gen}"
-    ab = [inv[x][2:] for x in m["aborted"]]
-    if ab != [str(a["flow"]) for a in call["aborts"]]:
-        return f"aborted flows differ: impl {[a['flow'] for a in call['aborts']]} model {ab}"
-    caught_impl = [str(h["uid"]) for h, p in zip(call["heads"], call["pos_after"]) if p != h["pos"]]
-    caught_model = sorted(inv[x][2:] for x in m["caught"])
-    # a head forwarded to a label whose index equals its position is not observable; compare as sets of moved heads
-    if not set(caught_impl) <= set(caught_model):
-        return f"re-positioned heads differ: impl {caught_impl} model {caught_model}"
-    if m["tie_sizes"] != [n for n, _ in call["choice"]]:
-        return f"random.choice candidate counts differ: impl {[n for n, _ in call['choice']]} model {m['tie_sizes']}"
-    # state.actions: only when no aborted flow touches the actions of the competing heads (abort decrements are not modelled)
-    touched = {a for ab_ in call["aborts"] for a in ab_["acts"]}
-    head_acts = {h["ev"]["act"] for h in call["heads"] if h["ev"]["act"]}
-    if not (touched & head_acts):
-        impl_tbl = sorted((str(u), n) for u, n in call["tbl_after"])
-        model_tbl = sorted((inv[u], n) for u, n in m["tbl"])
-        if impl_tbl != model_tbl:
-            return f"state.actions differ after the call: impl {impl_tbl} model {model_tbl}"
+    if m["advancing"] != exp["adv"]:
+        return f"advancing heads differ: impl {exp['adv']} model {m['advancing']}"
+    if [x[0] for x in m["generated"]] != exp["gen"]:
+        return f"generated events differ: impl heads {exp['gen']} model {[x[0] for x in m['generated']]}"
+    if m["aborted"] != exp["ab"]:
+        return f"aborted flows differ: impl {exp['ab']} model {m['aborted']}"
+    # a head forwarded to a label whose index equals its position is not observable: moved heads must be caught heads
+    if not set(exp["moved"]) <= set(m["caught"]):
+        return f"re-positioned heads differ: impl {exp['moved']} model {m['caught']}"
+    if m["tie_sizes"] != exp["ties"]:
+        return f"random.choice candidate counts differ: impl {exp['ties']} model {m['tie_sizes']}"
+    if exp["tbl"] is not None and sorted(m["tbl"]) != exp["tbl"]:
+        return f"state.actions differ after the call: impl {exp['tbl']} model {sorted(m['tbl'])}"
     return None
 
 
 def compare(case, obs, mouts):
-    calls = [c for c in all_calls(case, obs) if "exc" not in c]
-    for call, m in zip(calls, mouts):
-        d = compare_call(call, m)
+    for k, ((req, exp), m) in enumerate(zip(obs["_model"], mouts)):
+        d = compare_one(exp, m)
         if d:
-            return d
+            return f"recorded call #{k}: {d}; request {json.dumps(req)}"
     return None
 
 
@@ -675,6 +696,10 @@ def oracle_run(case, run):
 
 
 def oracle(case, obs):
+    return obs.get("_oracle")
+
+
+def _oracle(case, obs):
     if case["kind"] == "fn":
         if "exc" in obs:
             return "conflict resolution raised " + obs["exc"]
@@ -697,6 +722,10 @@ def oracle(case, obs):
 
 
 def signature(case, obs, msg):
+    return obs.get("_sig")
+
+
+def _signature(case, obs):
     try:
         if any(shared_action_region(c) for c in all_calls(case, obs)):
             return "cowin-on-shared-action"
@@ -706,6 +735,10 @@ def signature(case, obs, msg):
 
 
 def nontrivial(case, obs):
+    return bool(obs.get("_nt"))
+
+
+def _nontrivial(case, obs):
     for c in all_calls(case, obs):
         loops = [h["loop"] for h in c["heads"]]
         if len(loops) != len(set(loops)):
@@ -714,6 +747,10 @@ def nontrivial(case, obs):
 
 
 def tags(case, obs):
+    return obs.get("_tags", [])
+
+
+def _tags(case, obs):
     t = ["kind:" + case["kind"]]
     if "skip" in obs:
         t.append("skip:" + obs["skip"][:40])
@@ -721,7 +758,9 @@ def tags(case, obs):
     calls = all_calls(case, obs)
     t.append(f"calls:{min(len(calls), 9)}")
     if case["kind"] == "prog":
-        t.append(f"runs:{len(obs['runs'])}")
+        t.append(f"runs:{min(len(obs['runs']), 12)}")
+        if case.get("choices") == "tree":
+            t.append("tie-tree-complete" if obs.get("tree_complete") else "tie-tree-truncated")
         t.append(f"flows:{len(case['flows'])}")
         t.append("mode:" + case["mode"])
         for f in case["flows"]:
